@@ -14,9 +14,10 @@ def run(tier, runner):
     missing = set(shape.THROW_ROLES) - roles
     if missing:
         raise AnalysisBroken('documented throw sites not found any more: %s' % sorted(missing))
-    r_w = shape.widen(progs)
+    real = matrix.real_programs(runner, tier)
+    r_w = shape.widen(progs + real)
     r_geo, facts = shape.geo(progs)
-    r_cd = lifetime.check_dom(progs)
+    r_cd = lifetime.check_dom(progs + real)
     ob = lifetime.obligations([p for p in progs if p.meta.get('elem') != 'NTRtm'])
     r_cd.require(20, 'constructs into container storage')
     r_tt.require(4, 'throw expressions of the vector headers')
